@@ -221,4 +221,43 @@ def ptsEqualsDts (payload : Bytes) : Bool :=
         else isKeyType (b2 &&& 0x3F).toNat
     else false
 
+/-! ### `PTSEqualsDTS` once more with every index and slice expression checked (`none` =
+out-of-range access or no termination within `len+1` iterations). -/
+
+def ptsLoopC : Nat → Bytes → Option Bool
+  | 0, _ => none
+  | fuel + 1, payload => do
+    let hi ← idx? payload 0
+    let lo ← idx? payload 1
+    let size := hi.toNat * 256 + lo.toNat
+    let payload ← sliceFrom? payload 2
+    if size = 0 ∨ size > payload.length then some false
+    else do
+      let nalu ← sliceTo? payload size
+      let payload ← sliceFrom? payload size
+      let h ← idx? nalu 0
+      if isKeyType ((h >>> 1) &&& 0x3F).toNat then some true
+      else if payload.length = 0 then some false
+      else if payload.length < 2 then some false
+      else ptsLoopC fuel payload
+
+def ptsEqualsDtsC (payload : Bytes) : Option Bool :=
+  if payload.length = 0 then some false
+  else do
+    let b0 ← idx? payload 0
+    let typ := ((b0 >>> 1) &&& 0x3F).toNat
+    if isKeyType typ then some true
+    else if typ = CodecH26x.h265TypeAP then
+      if payload.length < 4 then some false
+      else do
+        let rest ← sliceFrom? payload 2
+        ptsLoopC (payload.length + 1) rest
+    else if typ = CodecH26x.h265TypeFU then
+      if payload.length < 3 then some false
+      else do
+        let b2 ← idx? payload 2
+        if b2 >>> 7 ≠ 1 then some false
+        else some (isKeyType (b2 &&& 0x3F).toNat)
+    else some false
+
 end Rtsp.Codec.H265
